@@ -1,6 +1,6 @@
 SPECIFICATION Spec
 CONSTANTS
-  Fams = {"stacked", "overlap", "nested"}
+  Fams = {"adjacent", "stacked"}
   MaxRoutes = 3
   PerClass = 4
   DEV_RemoveNoRebuild = FALSE
